@@ -1,7 +1,8 @@
 //! Bounded stand-in / failing-input search for unit U13 (insertion / lookup) — NOT a proof.
 //! Bound: all terms of depth <= 2 over {var, app, lam} with slots from {$x, $y} (about 300 terms), each inserted
 //! into a fresh e-graph together with up to two earlier terms; re-insertion literally, alpha-renamed and with
-//! renamed free slots.  Covers EGraph::shape (find children + minimise over group variants), which is not under contract.
+//! renamed free slots; plus lookups through a stored node with a redundant slot (a ternary node united with a binary
+//! one in all 6 argument orders, looked up under all 6 renamings).  Covers EGraph::shape (find children + minimise over group variants), which is not under contract.
 use crate::*;
 
 define_language! {
@@ -9,6 +10,8 @@ define_language! {
         Var(Slot) = "var",
         App(AppliedId, AppliedId) = "app",
         Lam(Bind<AppliedId>) = "lam",
+        Sub(AppliedId, AppliedId) = "sub",
+        Tri(AppliedId, AppliedId, AppliedId) = "tri",
     }
 }
 
@@ -58,6 +61,34 @@ pub fn run(only: &[String]) -> Vec<String> {
             if b.id != a.id { fails.push(format!("FAIL {} C09:add.agrees-with-lookup term {} re-inserted {}: class {:?} vs {:?}", label, t, what, a.id, b.id)); }
         }
         if fails.len() >= 3 { break; }
+    }
+    // a stored node with a redundant slot: union (sub x y) with (tri ..) whose three arguments are x, y and w in every
+    // order; w becomes redundant; then tri(t0,t1,t2) must equal sub(t[pos of x], t[pos of y]) for all names
+    if fails.len() < 3 {
+        let orders: [[&str; 3]; 6] = [["x","y","w"],["x","w","y"],["y","x","w"],["y","w","x"],["w","x","y"],["w","y","x"]];
+        let names = ["p", "q", "r"];
+        for o in orders {
+            let mut eg: EGraph<IL> = EGraph::default();
+            let s0 = eg.add_expr(RecExpr::parse("(sub (var $x) (var $y))").unwrap());
+            let t0 = eg.add_expr(RecExpr::parse(&format!("(tri (var ${}) (var ${}) (var ${}))", o[0], o[1], o[2])).unwrap());
+            eg.union(&s0, &t0);
+            let px = o.iter().position(|n| *n == "x").unwrap();
+            let py = o.iter().position(|n| *n == "y").unwrap();
+            let perms: [[usize; 3]; 6] = [[0,1,2],[0,2,1],[1,0,2],[1,2,0],[2,0,1],[2,1,0]];
+            for pm in perms {
+                let t = [names[pm[0]], names[pm[1]], names[pm[2]]];
+                let text = format!("(tri (var ${}) (var ${}) (var ${}))", t[0], t[1], t[2]);
+                verif_case(format!("after union of (sub x y) with (tri {} {} {}): {}", o[0], o[1], o[2], text));
+                let expect = eg.add_expr(RecExpr::parse(&format!("(sub (var ${}) (var ${}))", t[px], t[py])).unwrap());
+                let classes = eg.ids().len();
+                let re = RecExpr::<IL>::parse(&text).unwrap();
+                let l = lookup_rec_expr(&re, &eg);
+                let a = eg.add_expr(re);
+                let ok = l.as_ref().map(|l| eg.eq(l, &expect) && *l == a).unwrap_or(false) && eg.eq(&a, &expect) && eg.ids().len() == classes;
+                if !ok { fails.push(format!("FAIL {} C09:lookup_internal.spec after union of (sub x y) with (tri {} {} {}): {} looked up as {:?}, added as {:?}, expected {:?} (classes {} -> {})", label, o[0], o[1], o[2], text, l, a, expect, classes, eg.ids().len())); }
+                if fails.len() >= 3 { return fails; }
+            }
+        }
     }
     fails
 }
